@@ -270,3 +270,12 @@ FAMILIES["C18"] = dict(
                 "$formatNumber is specified on decimal digit sequences (JNumFmt) and validated by its own trace module."),
     level_note=_SEM_NOTE + " Doubles are identified with the unique small rational whose nearest double they are; values with more than 9 significant digits are outside this part of the model (see JNumFmt for the digit model).",
 )
+
+# (program, input) pairs evaluated by blues/jsonata-go's own tests (collected through the verif Eval hook), filed under the one
+# property whose constructs they use; only pairs whose outcome the specification pins are kept (tools/build_corpus.py, DESIGN.md 13.6)
+import os as _os
+for _p in ("C01", "C02", "C03", "C12", "C13", "C14", "C15", "C16", "C17", "C18", "C19"):
+    _f = "spec/cases/suite_%s.ndjson" % _p
+    if _os.path.exists(_os.path.join(_os.path.dirname(_os.path.dirname(_os.path.abspath(__file__))), _f)):
+        FAMILIES[_p].setdefault("files", [])
+        FAMILIES[_p]["files"] = list(FAMILIES[_p]["files"]) + [_f]
